@@ -1,0 +1,244 @@
+//go:build verif
+
+// Verification hooks for property C01 (save then open preserves observables):
+// a complete canonical dump of a worksheet's <sheetData> representation, and
+// wrappers that run the unexported save-time trim and open-time re-densify
+// on a grid given in the same textual form. Compiled only with `-tags verif`;
+// adds code and changes none.
+
+package excelize
+
+import (
+	"bytes"
+	"encoding/hex"
+	"encoding/xml"
+	"fmt"
+	"strconv"
+	"strings"
+)
+
+func verifC01Hex(s string) string {
+	if s == "" {
+		return "-"
+	}
+	return hex.EncodeToString([]byte(s))
+}
+
+func verifC01Unhex(s string) (string, bool) {
+	if s == "-" {
+		return "", true
+	}
+	b, err := hex.DecodeString(s)
+	return string(b), err == nil
+}
+
+func verifC01B(b bool) string {
+	if b {
+		return "1"
+	}
+	return "0"
+}
+
+func verifC01SIText(si *xlsxSI) string {
+	var b strings.Builder
+	if si.T != nil {
+		b.WriteString(si.T.Val)
+	}
+	for _, r := range si.R {
+		if r.T != nil {
+			b.WriteString(r.T.Val)
+		}
+	}
+	return b.String()
+}
+
+// verifC01DumpRows prints: nrows { r spans s cf ht hidden ch ol coll tt tb ph ncells { ref s t v f is } }
+func verifC01DumpRows(rows []xlsxRow) string {
+	var b strings.Builder
+	b.WriteString(strconv.Itoa(len(rows)))
+	for i := range rows {
+		r := &rows[i]
+		ht := "~"
+		if r.Ht != nil {
+			ht = verifC01Hex(strconv.FormatFloat(*r.Ht, 'g', -1, 64))
+		}
+		fmt.Fprintf(&b, " %d %s %d %s %s %s %s %d %s %s %s %s %d", r.R, verifC01Hex(r.Spans), r.S, verifC01B(r.CustomFormat), ht,
+			verifC01B(r.Hidden), verifC01B(r.CustomHeight), r.OutlineLevel, verifC01B(r.Collapsed), verifC01B(r.ThickTop),
+			verifC01B(r.ThickBot), verifC01B(r.Ph), len(r.C))
+		for j := range r.C {
+			c := &r.C[j]
+			f, is := "~", "~"
+			if c.F != nil {
+				f = verifC01Hex(c.F.Content)
+			}
+			if c.IS != nil {
+				is = verifC01Hex(verifC01SIText(c.IS))
+			}
+			fmt.Fprintf(&b, " %s %d %s %s %s %s", verifC01Hex(c.R), c.S, verifC01Hex(c.T), verifC01Hex(c.V), f, is)
+		}
+	}
+	return b.String()
+}
+
+// verifC01ParseRows is the inverse of verifC01DumpRows.
+func verifC01ParseRows(spec string) (rows []xlsxRow, ok bool) {
+	w := strings.Fields(spec)
+	pos := 0
+	next := func() string {
+		if pos >= len(w) {
+			ok = false
+			return "0"
+		}
+		pos++
+		return w[pos-1]
+	}
+	ok = true
+	num := func() int {
+		n, err := strconv.Atoi(next())
+		if err != nil || n < 0 {
+			ok = false
+		}
+		return n
+	}
+	str := func() string {
+		s, good := verifC01Unhex(next())
+		if !good {
+			ok = false
+		}
+		return s
+	}
+	flag := func() bool { return next() == "1" }
+	n := num()
+	for i := 0; i < n && ok; i++ {
+		var r xlsxRow
+		r.R = num()
+		r.Spans = str()
+		r.S = num()
+		r.CustomFormat = flag()
+		if h := next(); h != "~" {
+			s, good := verifC01Unhex(h)
+			v, err := strconv.ParseFloat(s, 64)
+			if !good || err != nil {
+				ok = false
+			}
+			r.Ht = &v
+		}
+		r.Hidden = flag()
+		r.CustomHeight = flag()
+		r.OutlineLevel = uint8(num())
+		r.Collapsed = flag()
+		r.ThickTop = flag()
+		r.ThickBot = flag()
+		r.Ph = flag()
+		nc := num()
+		for j := 0; j < nc && ok; j++ {
+			var c xlsxC
+			c.R = str()
+			c.S = num()
+			c.T = str()
+			c.V = str()
+			if h := next(); h != "~" {
+				s, good := verifC01Unhex(h)
+				if !good {
+					ok = false
+				}
+				c.F = &xlsxF{Content: s}
+			}
+			if h := next(); h != "~" {
+				s, good := verifC01Unhex(h)
+				if !good {
+					ok = false
+				}
+				c.IS = &xlsxSI{T: &xlsxT{Val: s}}
+			}
+			r.C = append(r.C, c)
+		}
+		rows = append(rows, r)
+	}
+	if pos != len(w) {
+		ok = false
+	}
+	return
+}
+
+// VerifC01Rows dumps the complete <sheetData> representation of a worksheet
+// (every row slot with its attributes, every cell slot with its reference).
+func VerifC01Rows(f *File, sheet string) string {
+	ws, err := f.workSheetReader(sheet)
+	if err != nil {
+		return "ERR"
+	}
+	ws.mu.Lock()
+	defer ws.mu.Unlock()
+	return "ok " + verifC01DumpRows(ws.SheetData.Row)
+}
+
+// VerifC01Trim runs trimRow on the given grid.
+func VerifC01Trim(spec string) (res string) {
+	defer func() {
+		if recover() != nil {
+			res = "PANIC"
+		}
+	}()
+	rows, ok := verifC01ParseRows(spec)
+	if !ok {
+		return "bad-op"
+	}
+	sd := xlsxSheetData{Row: rows}
+	return "ok " + verifC01DumpRows(trimRow(&sd))
+}
+
+func verifC01Densify(ws *xlsxWorksheet) string {
+	ws.checkSheet()
+	if err := ws.checkRow(); err != nil {
+		return "ERR"
+	}
+	return "ok " + verifC01DumpRows(ws.SheetData.Row)
+}
+
+// VerifC01Densify runs checkSheet and checkRow (what workSheetReader does to a
+// decoded worksheet) on the given grid.
+func VerifC01Densify(spec string) (res string) {
+	defer func() {
+		if recover() != nil {
+			res = "PANIC"
+		}
+	}()
+	rows, ok := verifC01ParseRows(spec)
+	if !ok {
+		return "bad-op"
+	}
+	return verifC01Densify(&xlsxWorksheet{SheetData: xlsxSheetData{Row: rows}})
+}
+
+// VerifC01Cycle runs the worksheet part of save and open on the given grid:
+// trimRow, XML encoding of the worksheet, XML decoding, checkSheet, checkRow.
+func VerifC01Cycle(spec string) (res string) {
+	defer func() {
+		if recover() != nil {
+			res = "PANIC"
+		}
+	}()
+	rows, ok := verifC01ParseRows(spec)
+	if !ok {
+		return "bad-op"
+	}
+	ws := &xlsxWorksheet{SheetData: xlsxSheetData{Row: rows}}
+	ws.SheetData.Row = trimRow(&ws.SheetData)
+	var buf bytes.Buffer
+	if err := xml.NewEncoder(&buf).Encode(ws); err != nil {
+		return "ERR-ENCODE"
+	}
+	back := new(xlsxWorksheet)
+	if err := xml.NewDecoder(bytes.NewReader(buf.Bytes())).Decode(back); err != nil {
+		return "ERR-DECODE"
+	}
+	return verifC01Densify(back)
+}
+
+// VerifC01TrimCellValue exposes trimCellValue(value, false): the text handed
+// to the XML encoder and whether xml:space="preserve" is requested.
+func VerifC01TrimCellValue(s string) (string, bool) {
+	v, ns := trimCellValue(s, false)
+	return v, ns.Value == "preserve"
+}
